@@ -1177,7 +1177,10 @@ pub fn run3(s: &Scn3, ctx: &mut RunCtx, prefix: &'static str) -> RunOutput {
             let stuck = crate::logq::in_flight_before(&calls, 0, t.first_poll_seq);
             let reached = calls.iter().any(|c| c.svc == 0 && c.req == n as u32);
             let open_for_ever = s.cfg.wait_ms == u64::MAX && tr.iter().filter(|x| x.0 < t.first_poll_seq).last().map(|x| x.3 == 1).unwrap_or(false);
-            if stuck == 0 && !reached && !open_for_ever {
+            // (a history stretched by a slow wrapped service may have opened the breaker less than
+            // the wait before the probe: being rejected is right then)
+            let still_waiting = tr.iter().filter(|x| x.0 < t.first_poll_seq).last().map(|x| x.3 == 1 && t.first_poll_us <= x.1.saturating_add(wait)).unwrap_or(false);
+            if stuck == 0 && !reached && !open_for_ever && !still_waiting {
                 let st = tr.iter().filter(|x| x.0 < t.first_poll_seq).last().map(|x| x.3).unwrap_or(0);
                 world::violation(
                     "C09.not_stranded",
